@@ -46,11 +46,11 @@ ASSUMPTIONS = ["float64 only; x0 does not require grad; nsamples >= 1 (nsamples 
                "second order = derivative of the first-order estimator including the score-function term of the sample weights"]
 BUDGET = {"quick": {"worker_timeout": 600, "case_timeout": 90}, "thorough": {"worker_timeout": 3000, "case_timeout": 120}}
 REQUIRED_COUNTERS = {
-    "quick": {"sampler_mhcustom": 150, "sampler__dummy1d": 60, "sampler_mh": 60, "grad_compared_first": 300,
+    "quick": {"extra_shared_object_compared": 20, "extra_x0dtype_compared": 20, "extra_late_backward_histories": 15, "sampler_mhcustom": 150, "sampler__dummy1d": 60, "sampler_mh": 60, "grad_compared_first": 300,
               "grad_compared_first_nograph": 300, "grad_compared_second": 150, "unused_tensor_grad_checked": 60,
               "bwd_abscissae_checked": 500, "step_history_checked": 150, "mh_stat_chains": 20, "mh_burnin_checked": 20, "mh_chain_rule_checked": 40,
               "meta_relations_checked": 40, "objparam_cases": 100, "shared_tensor_cases": 20},
-    "thorough": {"sampler_mhcustom": 1500, "sampler__dummy1d": 600, "sampler_mh": 600, "grad_compared_first": 3000,
+    "thorough": {"extra_shared_object_compared": 200, "extra_x0dtype_compared": 200, "extra_late_backward_histories": 150, "sampler_mhcustom": 1500, "sampler__dummy1d": 600, "sampler_mh": 600, "grad_compared_first": 3000,
                  "grad_compared_first_nograph": 3000, "grad_compared_second": 1500, "unused_tensor_grad_checked": 600,
                  "bwd_abscissae_checked": 5000, "step_history_checked": 1500, "mh_stat_chains": 200, "mh_burnin_checked": 200, "mh_chain_rule_checked": 400,
                  "meta_relations_checked": 400, "objparam_cases": 1000, "shared_tensor_cases": 200},
